@@ -45,6 +45,9 @@ type Case struct {
 	// OpVer: every attempt runs as another release of the tool (operator version v1, v2, …), as after
 	// an upgrade between a failed apply and its re-run.
 	OpVer bool `json:"opver,omitempty"`
+	// WriteFault > 0: the k-th revision write of the run under test fails (k = 2 is the write that
+	// follows the refusal on the unchanged tree): the refusal must still be reported as such.
+	WriteFault int `json:"write_fault,omitempty"`
 }
 
 func init() {
@@ -171,6 +174,7 @@ func one(cs Case) (why, key string, trace []string) {
 	write(dir, cs, cs.Out)
 	w.ExecN, w.WriteN, w.FailExec, w.FailWrite, w.FailWriteIf = 0, 0, 0, 0, nil
 	w.ReadN, w.FailRead = 0, cs.ReadFault
+	w.FailWrite = cs.WriteFault
 	start := len(w.Log)
 	var rerr error
 	defer func() { trace = world.EvStrings(w.Log[start:]) }()
@@ -286,6 +290,9 @@ func run(c *rt.Ctx) {
 				for k := 0; k < n; k++ { // k = 0: the first statement failed, nothing is applied yet
 					add := func(name string, out []string) {
 						cases = append(cases, Case{N: n, K: k, Edit: name, Out: out, Extra: extra, Style: style})
+						if n <= 3 && extra == 0 && style == "nl" && k > 0 && !(len(out) >= k && strings.Join(out[:k], "\x00") == strings.Join(o[:k], "\x00")) {
+							cases = append(cases, Case{N: n, K: k, Edit: name, Out: out, Extra: extra, Style: style, WriteFault: 2})
+						}
 						if n <= 4 && extra == 0 && style == "nl" {
 							cases = append(cases, Case{N: n, K: k, Edit: name, Out: out, Extra: extra, Style: style, OpVer: true})
 						}
@@ -423,7 +430,7 @@ func run(c *rt.Ctx) {
 		}
 		c.Count("edit:"+kind, 1)
 		c.Count("class:"+cls, 1)
-		c.Eval(rt.Digest(cs.N, cs.K, cs.K0, cs.Edit, cs.Extra, cs.Style, cs.Crash, cs.Text, cs.OpVer, tr), cs.Edit != "none")
+		c.Eval(rt.Digest(cs.N, cs.K, cs.K0, cs.Edit, cs.Extra, cs.Style, cs.Crash, cs.Text, cs.OpVer, cs.WriteFault, tr), cs.Edit != "none")
 		if cs.K0 > 0 {
 			c.Count("setup:two-stage(progress partly recorded by a resumed run)", 1)
 		}
@@ -432,6 +439,9 @@ func run(c *rt.Ctx) {
 		}
 		if cs.OpVer {
 			c.Count("setup:operator-version-differs-between-attempts", 1)
+		}
+		if cs.WriteFault > 0 {
+			c.Count("refusal-with-failing-revision-write", 1)
 		}
 		if why == "" && key == "read-fault-not-reached" {
 			c.Count("read-fault:not-reached(no observation)", 1)
